@@ -5,6 +5,55 @@ from pyvc.spec import Spec
 MW = "eudoxia.workload.workload"
 
 
+MC = "eudoxia.workload.csv_io"
+
+
+def prepare(prog):
+    """one iteration of `for pipeline_arrival in self.batch_by_pipeline():` of the generator batch_by_arrival: the rebound locals
+    are returned with the verdict, `yield e` becomes `emitted.append(e)` (see pyvc/extract.py)"""
+    import ast
+    from pyvc.extract import extract_loop_body
+    return extract_loop_body(prog, f"{MC}:CSVWorkloadReader.batch_by_arrival", "group_arrival",
+                             lambda n: ast.unparse(n.target) == "pipeline_arrival" and "batch_by_pipeline" in ast.unparse(n.iter),
+                             ["self", "pipeline_arrival", "current_batch", "current_arrival_seconds", "emitted"],
+                             outs=["current_batch", "current_arrival_seconds"], yields_to="emitted")
+
+
+def declare3(S: Spec):
+    """grouping of equal arrival times (C13: pipelines with equal arrival keep their file order; every batch handed to the
+    replay is non-empty and of one arrival time - the ArrivalBatchOK that run_one_tick's invariant assumes of its reader)"""
+    PA = Ref("PipelineArrival")
+    S.pred("ArrivalRun", [("b", List(PA)), ("a", Opt(REAL))],
+           "b is not None and a is not None and len(b) >= 1 and all(pa is not None and pa.arrival_seconds == a for pa in b)")
+    LASTB = "emitted[len(emitted) - 1]"
+    CLOSE = "old(current_arrival_seconds) is not None and pipeline_arrival.arrival_seconds != old(current_arrival_seconds)"
+    S.fn(f"{MC}:group_arrival", owners=["C13"],
+         params={"self": Ref("CSVWorkloadReader"), "pipeline_arrival": PA, "current_batch": List(PA),
+                 "current_arrival_seconds": Opt(REAL), "emitted": List(List(PA))},
+         returns=Tuple(STR, List(PA), Opt(REAL)),
+         requires=["self is not None and pipeline_arrival is not None and emitted is not None and current_batch is not None",
+                   "all(b is not current_batch for b in emitted)",
+                   "implies(current_arrival_seconds is not None, ArrivalRun(current_batch, current_arrival_seconds))"],
+         ensures=[("always-moves-on", "result[0] == 'next'"),
+                  ("the-open-batch-has-one-arrival-time", "ArrivalRun(result[1], result[2])"),
+                  ("the-new-pipeline-is-last-in-the-open-batch", "result[1][len(result[1]) - 1] is pipeline_arrival"),
+                  ("an-equal-arrival-joins-the-open-batch-behind-the-earlier-ones",
+                   "implies(old(current_arrival_seconds) is not None and pipeline_arrival.arrival_seconds == old(current_arrival_seconds),"
+                   " result[1] is current_batch and len(result[1]) == old(len(current_batch)) + 1"
+                   " and all(result[1][j] is old(current_batch[j]) for j in range(0, old(len(current_batch))))"
+                   " and len(emitted) == old(len(emitted)))"),
+                  ("another-arrival-time-hands-out-the-open-batch-unchanged",
+                   f"implies({CLOSE}, len(result[1]) == 1 and len(emitted) == old(len(emitted)) + 1 and {LASTB} is old(current_batch)"
+                   f" and len({LASTB}) == old(len(current_batch)) and all({LASTB}[j] is old(current_batch[j]) for j in range(0, len({LASTB}))))"),
+                  ("a-batch-handed-out-is-non-empty-and-of-one-arrival-time", f"implies({CLOSE}, ArrivalBatchOK({LASTB}))"),
+                  ("the-next-batch-has-another-arrival-time", f"implies({CLOSE}, {LASTB}[0].arrival_seconds != result[2])"),
+                  ("the-first-pipeline-opens-a-batch",
+                   "implies(old(current_arrival_seconds) is None, len(result[1]) == 1 and len(emitted) == old(len(emitted)))"),
+                  ("batches-already-handed-out-stay", "all(emitted[j] is old(emitted[j]) for j in range(0, old(len(emitted))))")],
+         modifies=["contents(current_batch)", "contents(emitted)"], allocates=True,
+         note="extracted: one iteration of the loop of batch_by_arrival over the pipelines of batch_by_pipeline; yield -> emitted.append")
+
+
 def declare(S: Spec):
     S.cls("PipelineArrival", {"arrival_seconds": REAL, "pipeline": Ref("Pipeline")}, immutable=("arrival_seconds", "pipeline"))
     # the reader's generator: ghost view = the batches it has not yielded yet
